@@ -27,6 +27,17 @@ ASSUMPTIONS = [
     'covering the identifier (where_eq(Id=v); where_eq(ID=v, S=..); the dict {id: v, n: ..}), alone and paired (either order) '
     'with every other operator, and navigations of up to two hops ending in such a class get the closer where_eq(Id=v)',
     'subtype navigation is compared only when at most one subtype instance is related (the statement says "the one")',
+    'returned sets belong to the caller: in every state, for the unfiltered select_many, one filtered select_many and every '
+    'one-hop navigation from every live instance, a returned QuerySet is changed in place (first element removed; first element '
+    'moved to the end; cleared; first element exchanged for a dead instance / an instance of another class; such an instance '
+    'added) and the same query asked again must still return exactly the matching live instances in model order',
+    'select-in-history family (schemas e_reflexive_1c_1c and b_1_mc, operations new / delete / unfiltered select_many(class), no '
+    'relate / unrelate): an unfiltered select is an operation of the history and NOTHING else queries the model while a history is '
+    'replayed (the per-step observation of the first family is confined to discarded worlds), so every mix of creations and '
+    'deletions occurs between two unfiltered selects; the state additionally records, per class, the pool the last select of '
+    'the history saw (assumption: of all earlier queries only the last unfiltered select per class can influence later answers); '
+    'probes of this family: unfiltered select first, then four filtered / ordered forms, select_one / select_any, and the '
+    'changed-result probes',
 ]
 EXTRA = [('N', 'integer'), ('S', 'string')]
 # value choices for the j-th instance created of a class: ties in N, in S, in both and in neither all occur
@@ -328,6 +339,8 @@ class QueryModel(c02.CappedModel):
                     if g != e1:
                         bad(nm, [nm, kind, seq], 'returned %s, expected %s' % (g, e1), e1, g)
 
+            self.mutation_probes(ctx, w, kind, pool, bad, labels)
+
             # navigation chains
             chains = self.chains(kind, maxchain)
             closers = [[], [['eq', {'N': 0}]], [['lam', 'S', '<', 'b']], [['ord', ['N'], True]], [['ord', ['S', 'N'], False]]]
@@ -435,6 +448,63 @@ class QueryModel(c02.CappedModel):
             if xtuml.navigate_subtype(None, 4) is not None:
                 bad('navigate_subtype', ['navigate_subtype', None, 4], 'not None for an empty handle', None, 'x')
 
+    def mutation_probes(self, ctx, w, kind, pool, bad, labels):
+        '''A returned set belongs to the caller: after adding / removing elements of a result in place, the same query
+        asked again must still return exactly the matching live instances in model order.'''
+        import xtuml
+        others = [h for h in w.handles if w.label.get(h) not in pool]      # dead instances and instances of other classes
+        muts = ['remove-first', 'rotate', 'clear', 'swap-first-for-foreign', 'add-foreign']
+
+        def mutate(res, how):
+            if how == 'remove-first' and len(res):
+                res.remove(res.first)
+            elif how == 'rotate' and len(res) > 1:
+                x = res.first
+                res.remove(x)
+                res.add(x)
+            elif how == 'clear' and len(res):
+                res.clear()
+            elif how == 'swap-first-for-foreign' and len(res) and others:
+                res.remove(res.first)
+                res.add(others[-1])
+            elif how == 'add-foreign' and others:
+                res.add(others[0])
+            else:
+                return False
+            return True
+
+        queries = [('select_many', [], pool), ('select_many', [['eq', {'N': 0}]], self.ref_apply(w, pool, [['eq', {'N': 0}]]))]
+        for x in pool:
+            for (to, rel, ph) in self.schema.nav_menu(kind):
+                queries.append(('navigate_many', [x, to, rel, ph], list(w.ref.navigate(x, to, rel, ph))))
+        for form, arg, exp in queries:
+            def ask():
+                if form == 'select_many':
+                    return w.m.select_many(kind, *self.real_ops(arg))
+                return xtuml.navigate_many(w.handles[arg[0]]).nav(arg[1], arg[2], arg[3])()
+            for how in muts:
+                q = [form + ':after-mutating-result', kind, arg, how]
+                try:
+                    if not mutate(ask(), how):
+                        continue
+                    ctx.count('mutation_probes')
+                    res = ask()
+                    got = labels(res)
+                    first = None
+                    if form == 'select_many':
+                        first = w.m.select_any(kind, *self.real_ops(arg))
+                        first = None if first is None else w.label.get(first, '?')
+                except Exception as e:
+                    bad('mutated-result:exception', q, 'raised %s: %s' % (type(e).__name__, e), exp, type(e).__name__)
+                    continue
+                if got != exp:
+                    kindv = 'order' if sorted(map(repr, got)) == sorted(map(repr, exp)) else 'content'
+                    bad('%s:mutated-result:%s' % (form, kindv), q, 'after changing a previously returned set in place (%s) the same '
+                        'query returned %s, expected %s' % (how, got, exp), exp, got)
+                elif form == 'select_many' and first != (exp[0] if exp else None):
+                    bad('select_any:mutated-result', q, 'after changing a previously returned set in place (%s) select_any returned '
+                        '%s, expected %s' % (how, first, exp[0] if exp else None), exp[0] if exp else None, first)
+
     def real_nav(self, w, hname, start, chain, closer, ci):
         import xtuml
         lab = w.label
@@ -474,6 +544,135 @@ class QueryModel(c02.CappedModel):
         one = walk(xtuml.navigate_one(mk()) if ci % 2 else xtuml.navigate_any(mk()), style)(*self.real_ops(closer))
         one = None if one is None else lab.get(one, '?')
         return got, one, ty
+
+
+class ExtentModel(QueryModel):
+    '''Second family: an unfiltered select_many of a class is an OPERATION of the history (its result is kept by the
+    world), and nothing else queries the model while a history is replayed.  Histories therefore exist in which any mix of
+    creations and deletions lies between two unfiltered selects (or between a select and the probes of a state).  The
+    state additionally holds, per class, what the last select of the history returned.  Operations: new / delete / select
+    (associations play no part here; the first family covers them).'''
+
+    def case(self, hist, op):
+        c = QueryModel.case(self, hist, op)
+        c['family'] = 'extent'
+        return c
+
+    def run_impl(self, w, op):
+        if op[0] == 'select':
+            w.__dict__.setdefault('held', {})[op[1]] = w.m.select_many(op[1])
+            return 'selected'
+        return QueryModel.run_impl(self, w, op)
+
+    def run_ref(self, w, op):
+        if op[0] == 'select':
+            w.__dict__.setdefault('snap', {})[op[1]] = list(w.ref.order[op[1]])
+            return 'selected'
+        return QueryModel.run_ref(self, w, op)
+
+    def snapshot(self, w):
+        name, n = {}, {}
+        for i in w.ref.insts:
+            name[i.idx] = '%s%d' % (i.kind, n.get(i.kind, 0))
+            n[i.kind] = n.get(i.kind, 0) + 1
+        snap = getattr(w, 'snap', {})
+        return dict((k, [name[x] for x in v]) for k, v in snap.items())
+
+    def canon(self, w):
+        return json.dumps([QueryModel.canon(self, w), self.snapshot(w)], sort_keys=True)
+
+    def enabled(self, w):
+        ops = [o for o in QueryModel.enabled(self, w) if o[0] in ('new', 'delete')]
+        for k in self.schema.kinds():
+            ops.append(['select', k])
+        return ops
+
+    def apply(self, ctx, w, op, hist):
+        if op[0] != 'select':
+            return QueryModel.apply(self, ctx, w, op, hist)
+        self.run_impl(w, op)
+        self.run_ref(w, op)
+        ctx.count('traces')
+        ctx.count('extent_select_operations')
+        res = w.held[op[1]]
+        got = [w.label.get(i, '?') for i in itertools.islice(iter(res), 64)]
+        exp = w.snap[op[1]]
+        if got != exp or type(res).__name__ != 'QuerySet':
+            kindv = 'order' if sorted(map(repr, got)) == sorted(map(repr, exp)) else 'content'
+            if got == exp:
+                kindv = 'type'
+            ctx.violation('c09:select_many:in-history:%s' % kindv, self.case(hist, op),
+                          'schema %s, history %s (no other query of the model during it), then select_many(%s): returned %s, '
+                          'expected %s' % (self.schema.name, hist, op[1], got, exp), exp, got)
+            return False
+        return True
+
+    def probes(self, ctx, w, hist):
+        lab = w.label
+        case0 = self.case(hist, None)
+        snap = getattr(w, 'snap', {})
+
+        def bad(kind, q, msg, exp, got):
+            case = dict(case0, op=['probe', q])
+            ctx.violation('c09:%s' % kind, case, 'schema %s, history %s (selects are part of it; nothing else queried the model): '
+                          '%s: %s' % (self.schema.name, hist, q, msg), exp, got)
+
+        def labels(res):
+            return [lab.get(i, '?') for i in itertools.islice(iter(res), 64)]
+
+        # the sets returned by the selects of the history are the caller's: what they hold is not compared
+        for kind in self.schema.kinds():
+            pool = list(w.ref.order[kind])
+            if kind in snap:
+                ctx.count('extent_states_selected_before')
+                if snap[kind] != pool:
+                    ctx.count('extent_states_pool_changed_since_select')
+                    if len(snap[kind]) == len(pool):
+                        ctx.count('extent_states_pool_changed_same_size')
+            # the unfiltered forms first (a filtered one before them must not be needed to get them right)
+            seqs = [[], [['lam', 'S', '<', 'c']], [['eq', {'N': 0}]], [['ord', ['N'], True]], [['ord', ['S', 'N'], False]]]
+            for qi, seq in enumerate(seqs):
+                exp = self.ref_apply(w, pool, seq)
+                k = [kind, kind.lower(), kind.upper()][qi % 3]
+                ctx.count('queries')
+                ctx.count('extent_queries')
+                try:
+                    res = w.m.select_many(k, *self.real_ops(seq))
+                    got = labels(res)
+                    ty = type(res).__name__
+                    one = w.m.select_one(k, *self.real_ops(seq))
+                    any_ = w.m.select_any(k, *self.real_ops(seq))
+                except Exception as e:
+                    bad('select:exception', ['select', kind, seq], 'raised %s: %s' % (type(e).__name__, e), exp, type(e).__name__)
+                    continue
+                ctx.distinct('outcomes', ('extent', kind, tuple(got), len(seq), tuple(snap.get(kind, ['-']))))
+                if got != exp:
+                    kindv = 'select_many:order' if sorted(map(repr, got)) == sorted(map(repr, exp)) else 'select_many:content'
+                    bad(kindv, ['select_many', kind, seq], 'returned %s, expected %s' % (got, exp), exp, got)
+                elif ty != 'QuerySet':
+                    bad('select_many:type', ['select_many', kind, seq], 'returned a %s' % ty, 'QuerySet', ty)
+                e1 = exp[0] if exp else None
+                for nm, r in (('select_one', one), ('select_any', any_)):
+                    g = None if r is None else lab.get(r, '?')
+                    if g != e1:
+                        bad(nm, [nm, kind, seq], 'returned %s, expected %s' % (g, e1), e1, g)
+            self.mutation_probes(ctx, w, kind, pool, bad, labels)
+
+
+# pool caps of the second family (quick, thorough)
+EXTENT_CAPS = {
+    'e_reflexive_1c_1c': ({'A': 3}, {'A': 4}),
+    'b_1_mc': ({'A': 2, 'B': 2}, {'A': 2, 'B': 2}),      # (thorough: same caps, the larger value menu)
+}
+
+
+def extent_models(ctx):
+    out = []
+    for schema in schemas.shapes(EXTRA):
+        if schema.name in EXTENT_CAPS:
+            caps = EXTENT_CAPS[schema.name][0 if ctx.quick else 1]
+            out.append(ExtentModel(schema, caps, seeds_for(schema)[:1], ctx.tier))
+    return out
 
 
 def seeds_for(schema):
@@ -539,6 +738,19 @@ def run(ctx):
         ctx.sample(dict(schema=m.schema.name, caps=m.caps, states=res['states'],
                         deepest_history=max(res['seen'].values(), key=len)))
     ctx.require(total >= 300, 'too few states (%d)' % total)
+    etotal = 0
+    for m in explorer.rotate(extent_models(ctx), ctx.seed):
+        label = 'extent:' + m.schema.name
+        res = explorer.bfs(ctx, m, chunk=8, label=label)
+        etotal += res['states']
+        print('  %-28s caps=%s states=%d depth=%d closed=%s t=%.0fs' % (label, m.caps, res['states'], res['depth'], res['closed'], ctx.elapsed()), flush=True)
+        ctx.sample(dict(family='extent', schema=m.schema.name, caps=m.caps, states=res['states'],
+                        deepest_history=max(res['seen'].values(), key=len)))
+    ctx.require(etotal >= 100, 'select-in-history family: too few states (%d)' % etotal)
+    ctx.require(ctx.n('extent_states_pool_changed_same_size') >= 20,
+                'select-in-history family: too few states whose pool changed, at equal size, since the last select of the history (%d)'
+                % ctx.n('extent_states_pool_changed_same_size'))
+    ctx.require(ctx.n('mutation_probes') >= 1000, 'too few re-queries after changing a returned set (%d)' % ctx.n('mutation_probes'))
     ctx.require(ctx.n('queries') >= 10000 and ctx.n('navigations') >= 10000, 'too few queries evaluated')
     ctx.require(ctx.n('mixed_navigations_returning_several') >= 1000,
                 'too few navigations from heterogeneous sets that return several instances (%d)' % ctx.n('mixed_navigations_returning_several'))
@@ -549,7 +761,8 @@ def run(ctx):
 
 def replay(ctx, case):
     schema = schemas.by_name(case['schema'], EXTRA)
-    m = QueryModel(schema, case['caps'], seeds_for(schema), case.get('tier', 'quick'))
+    cls = ExtentModel if case.get('family') == 'extent' else QueryModel
+    m = cls(schema, case['caps'], seeds_for(schema), case.get('tier', 'quick'))
     explorer.replay_case(ctx, m, case['hist'], case.get('op'))
 
 
@@ -565,12 +778,20 @@ def coverage(ctx):
         identifier_filters=ctx.n('identifier_filters'), identifier_filters_matching_several=ctx.n('identifier_filters_matching_several'),
         distinct_nontrivial=ctx.nd('nontrivial'),
         distinct_outcomes=ctx.nd('outcomes'),
+        requeries_after_changing_a_returned_set=ctx.n('mutation_probes'),
+        select_in_history=dict(select_operations=ctx.n('extent_select_operations'), queries=ctx.n('extent_queries'),
+                               states_probed_after_a_select=ctx.n('extent_states_selected_before'),
+                               states_pool_changed_since_select=ctx.n('extent_states_pool_changed_since_select'),
+                               states_pool_changed_at_equal_size=ctx.n('extent_states_pool_changed_same_size')),
         rule='in every reachable state (API histories and loader-built seeds) every select_many/select_one/select_any with '
              'every operator sequence of the menu and every type-correct navigation chain from None / instance / QuerySet / '
              'list / generator handles with every closer is evaluated; non-trivial = a navigation that returned more than one '
-             'instance, distinct by (schema, start class, handle kind, chain, result, closer)',
+             'instance, distinct by (schema, start class, handle kind, chain, result, closer); second family: every history of '
+             'new / delete / unfiltered select within the caps up to the canonical state (model state + pool seen by the last '
+             'select of each class), each select compared when executed and every state probed without any earlier query',
         per_schema=dict((k, v) for k, v in ctx.notes.items() if isinstance(v, dict)),
         bounds=dict(pool_caps=dict((k, v[0 if ctx.quick else 1]) for k, v in CAPS.items()),
-                    operator_sequence_length=2 if ctx.quick else 3, chain_length=3 if ctx.quick else 4),
+                    operator_sequence_length=2 if ctx.quick else 3, chain_length=3 if ctx.quick else 4,
+                    select_in_history_pool_caps=dict((k, v[0 if ctx.quick else 1]) for k, v in EXTENT_CAPS.items())),
         exhaustive=bool(closed) and not ctx.caps_hit,
     )
